@@ -27,13 +27,13 @@ func PredC14(o *Obs) []Finding {
 	cfg := o.Cfg
 	// split into attempts at GetOps events
 	attempts := 0
-	curWs := 0               // workspace of the running attempt (0 = none)
-	open := map[int]bool{}   // created and not destroyed
+	curWs := 0             // workspace of the running attempt (0 = none)
+	open := map[int]bool{} // created and not destroyed
 	okCommits := 0
 	results := 0
 	committedWs := 0
 	readManIn := map[int]bool{}
-	lastFail := ""      // kind of the failure that ended the previous attempt
+	lastFail := "" // kind of the failure that ended the previous attempt
 	attemptFailed := false
 	seenWs := map[int]bool{}
 	for i, e := range o.Log {
